@@ -13,6 +13,89 @@ def sigma_residual(q, sigma, iota):
         - 2 * E * (-q.spsi * q.torsion + q.I2 / q.B0) * q.G0 / q.B0
 
 
+def axis_geometry(cfg, phi):
+    """curvature, torsion, dl/dphi and the normal's (R, Z) components of the axis described by cfg, from the Fourier coefficients alone
+    (analytic derivatives of the series, Cartesian formulas) -- independent of init_axis"""
+    nfp = cfg['nfp']
+    nh = len(cfg['rc'])
+    rc, zs = np.array(cfg['rc'], float), np.array(cfg['zs'], float)
+    rs, zc = np.array(cfg.get('rs', [0.0] * nh), float), np.array(cfg.get('zc', [0.0] * nh), float)
+    m = np.arange(nh) * nfp
+    def ser(c, s_, k):      # k-th derivative of sum c cos(m phi) + s sin(m phi)
+        a = m[:, None] * phi[None, :] + k * np.pi / 2
+        return np.sum((m[:, None] ** k) * (c[:, None] * np.cos(a) + s_[:, None] * np.sin(a)), axis=0)
+    R = [ser(rc, rs, k) for k in range(4)]; Z = [ser(zc, zs, k) for k in range(4)]
+    c, s_ = np.cos(phi), np.sin(phi)
+    # derivatives of e_R = (cos, sin, 0), e_phi = (-sin, cos, 0)
+    eR = np.array([c, s_, 0 * c]); eP = np.array([-s_, c, 0 * c]); eZ = np.array([0 * c, 0 * c, 1 + 0 * c])
+    r1 = R[1] * eR + R[0] * eP + Z[1] * eZ
+    r2 = (R[2] - R[0]) * eR + 2 * R[1] * eP + Z[2] * eZ
+    r3 = (R[3] - 3 * R[1]) * eR + (3 * R[2] - R[0]) * eP + Z[3] * eZ
+    sp = np.sqrt(np.sum(r1 * r1, axis=0))
+    cr = np.cross(r1.T, r2.T).T
+    cn = np.sqrt(np.sum(cr * cr, axis=0))
+    kappa = cn / sp ** 3
+    tau = np.sum(cr * r3, axis=0) / cn ** 2
+    t = r1 / sp
+    nvec = r2 - np.sum(r2 * t, axis=0) * t
+    nvec = nvec / np.sqrt(np.sum(nvec * nvec, axis=0))
+    return kappa, tau, sp, np.sum(nvec * eR, axis=0), nvec[2]
+
+
+def shooting_iota(cfg):
+    """iota from a high-accuracy shooting solution of the continuous sigma (Riccati) ODE built from the axis coefficients alone"""
+    from scipy.integrate import solve_ivp
+    from scipy.optimize import brentq
+    nfp = cfg['nfp']; sG = cfg.get('sG', 1); spsi = cfg.get('spsi', 1); B0 = cfg.get('B0', 1.0); I2 = cfg.get('I2', 0.0)
+    eta = cfg['etabar']; s0 = cfg.get('sigma0', 0.0)
+    fine = np.arange(4096) * (2 * np.pi / 4096)
+    k_, t_, sp, nR, nZ = axis_geometry(cfg, fine)
+    L = np.sum(sp) * (2 * np.pi / 4096)
+    G0 = sG * B0 * L / (2 * np.pi)
+    # winding number of the normal in the (R, Z) plane over one field period
+    per = fine[: 4096 // nfp + 1] if 4096 % nfp == 0 else np.linspace(0, 2 * np.pi / nfp, 4097)
+    kk, tt, ss, aR, aZ = axis_geometry(cfg, per)
+    ang = np.unwrap(np.arctan2(aZ, aR))
+    wind = int(round((ang[-1] - ang[0]) / (2 * np.pi)))
+    N = sG * spsi * wind
+    def rhs(phi, y, iN):
+        k1, t1, s1, _, _ = axis_geometry(cfg, np.atleast_1d(phi))
+        E = eta * eta / (k1[0] * k1[0])
+        dvp = 2 * np.pi / L * s1[0]
+        return [dvp * (-iN * (E * E + 1 + y[0] * y[0]) + 2 * E * (-spsi * t1[0] + I2 / B0) * G0 / B0)]
+    def F(iN):
+        sol = solve_ivp(rhs, [0, 2 * np.pi / nfp], [s0], args=(iN,), method='DOP853', rtol=1e-11, atol=1e-13)
+        return sol.y[0, -1] - s0
+    return F, N
+
+
+def shooting_check(cfg, q, out):
+    """returns number of predictions checked"""
+    spec = np.abs(np.fft.rfft(q.sigma)); tail = spec[-3:].max() / max(spec.max(), 1e-300)
+    spec2 = np.abs(np.fft.rfft(q.curvature)); tail = max(tail, spec2[-3:].max() / max(spec2.max(), 1e-300))
+    if not tail < 1e-9:
+        return 0
+    from scipy.optimize import brentq
+    F, N = shooting_iota(cfg)
+    n = 1
+    if N != q.helicity:
+        out.append(dict(key='shooting:helicity', what='helicity %r differs from sG*spsi*(winding number of the normal computed from the coefficients) = %d' % (q.helicity, N), cfg=jsonable(cfg)))
+    want_iN = q.iota + N * cfg['nfp']                 # the iotaN the shooting solution must have if the returned iota is right
+    d = 1e-3 * max(1.0, abs(want_iN))
+    try:
+        fa, fb = F(want_iN - d), F(want_iN + d)
+        if fa * fb > 0:
+            out.append(dict(key='shooting:iota', what='no periodic solution of the continuous sigma ODE within 1e-3 of iota + N*nfp = %.9g (iota = %.9g, N = %d): sigma(end) - sigma0 = %.3g, %.3g at the two ends' % (want_iN, q.iota, N, fa, fb), cfg=jsonable(cfg)))
+            return n + 1
+        iN = brentq(F, want_iN - d, want_iN + d, xtol=1e-13, rtol=1e-13)
+    except Exception as e:
+        return n
+    n += 1
+    if abs(iN - want_iN) > max(1e-7, 1e3 * tail) * max(1.0, abs(iN)):
+        out.append(dict(key='shooting:iota', what='iota = %.12g but the shooting solution of the continuous ODE gives %.12g (nphi = %d)' % (q.iota, iN - N * cfg['nfp'], q.nphi), cfg=jsonable(cfg)))
+    return n
+
+
 def predict(cfg, rng, q=None, msgs=None):
     out, n = [], 0
     if q is None:
@@ -44,6 +127,8 @@ def predict(cfg, rng, q=None, msgs=None):
         if np.max(np.abs(lhs)) > 1e-9 * scale * max(1.0, abs(eps)) * max(1.0, np.max(np.abs(x)) ** 2):
             out.append(dict(key='jacobian', what='_jacobian is not the exact derivative of _residual at an arbitrary state: defect %.3g (scale %.3g, eps=%g)' % (np.max(np.abs(lhs)), scale, eps), cfg=jsonable(cfg)))
             break
+    if not warned and cfg.get('nphi', 0) >= 31:
+        n += shooting_check(cfg, q, out)
     return out, n
 
 
@@ -81,6 +166,22 @@ def main():
             cfg, q = gen_admissible(rng, order='r1', asym=(tried % 2 == 0))
         except RuntimeError:
             continue
+        if tried % 4 == 3:
+            # hard inputs on which Newton may stall: the property then demands a warning
+            hard = dict(cfg)
+            if rng.random() < 0.5:
+                hard['sigma0'] = float(10 ** rnd(rng, 2, 6.5)) * (1 if rng.random() < 0.5 else -1)
+            else:
+                hard['etabar'] = cfg['etabar'] * float(10 ** rnd(rng, 1.5, 2.6))
+            try:
+                qh_, mh_ = build(hard)
+                vh, nh_ = predict(hard, rng, qh_, mh_)
+                res['predictions_checked'] += nh_; res['violations'] += vh
+                dist['hard'] = dist.get('hard', 0) + 1
+            except Exception:
+                pass
+        if tried % 2 == 1:
+            cfg['nphi'] = int(2 * rng.integers(20, 40) + 1)          # resolved grids for the shooting comparison
         q, msgs = build(cfg)
         note(cfg, q)
         if a.mode == 'check':
